@@ -1060,21 +1060,34 @@ EXTRA = [
                             log_wsgiapp.error('handler %s failed', handler_name)
                             traceback.print_exc(file=environ['wsgi.errors'])""", 'log call added'),
     M('M-C18b-no-escape-xml', 'mapproxy/exception.py', """        # escape &<> in error message (e.g. URL params)
-        msg = escape(request_error.msg)
+        msg = escape_xml_text(request_error.msg)
         result = self.template.substitute(exception=msg,
                                           code=request_error.code)""", """        # escape &<> in error message (e.g. URL params)
         msg = request_error.msg
         result = self.template.substitute(exception=msg,
                                           code=request_error.code)""", 'C18.b'),
-    M('M-C18b-ows-no-escape', 'mapproxy/exception.py', """        msg = escape(request_error.msg)
+    M('M-C18b-ows-no-escape', 'mapproxy/exception.py', """        msg = escape_xml_text(request_error.msg)
         result = self.template.substitute(exception=msg,
                                           code=request_error.code, locator=request_error.locator)""", """        msg = str(request_error.msg)
         result = self.template.substitute(exception=msg,
                                           code=request_error.code, locator=request_error.locator)""", 'C18.b'),
-    E('E-C18b-inline-escape', 'mapproxy/exception.py', """        msg = escape(request_error.msg)
+    E('E-C18b-inline-escape', 'mapproxy/exception.py', """        msg = escape_xml_text(request_error.msg)
         result = self.template.substitute(exception=msg,
-                                          code=request_error.code, locator=request_error.locator)""", """        result = self.template.substitute(exception=escape(request_error.msg),
+                                          code=request_error.code, locator=request_error.locator)""", """        result = self.template.substitute(exception=escape_xml_text(request_error.msg),
                                           code=request_error.code, locator=request_error.locator)""", 'escape inlined'),
+    M('M-C18j-revert-D15', 'mapproxy/exception.py', "    return _illegal_xml_chars.sub('', escape(text))", "    return escape(text)", 'C18.j',
+      'revert of fix D15: control characters stay in the message'),
+    M('M-C18j-class-misses-vt', 'mapproxy/exception.py', "_illegal_xml_chars = re.compile('[\\x00-\\x08\\x0b\\x0c\\x0e-\\x1f",
+      "_illegal_xml_chars = re.compile('[\\x00-\\x08\\x0c\\x0e-\\x1f", 'C18.j', 'the class no longer contains U+000B'),
+    E('E-C18j-resub', 'mapproxy/exception.py', "    return _illegal_xml_chars.sub('', escape(text))",
+      "    return re.sub('[\\x00-\\x08\\x0b-\\x0c\\x0e-\\x1f]', '', escape(text))", 're.sub with an equivalent class'),
+    M('M-C18k-revert-D16', 'mapproxy/response.py', "            value = ''.join(c for c in value if ' ' <= c != '\\x7f')\n", "", 'C18.k', 'revert of fix D16'),
+    E('E-C18k-replace-chain', 'mapproxy/response.py', "            value = ''.join(c for c in value if ' ' <= c != '\\x7f')\n",
+      "            value = value.replace('\\r', '').replace('\\n', '')\n", 'CR and LF removed by replace()'),
+    M('M-C18l-revert-D17', 'mapproxy/request/wms/exception.py', "return Response(result.as_buffer(), content_type=content_type)",
+      "return Response(result.as_buffer(), content_type=params.format_mime_type)", 'C18.l', 'revert of fix D17'),
+    M('M-C18i-revert-D14', 'mapproxy/cache/tile.py', "                t.source.image_opts = self.image_opts\n", "                pass\n", 'C18.i', 'revert of fix D14'),
+    M('M-C20f-revert-D13', 'mapproxy/cache/tile.py', "                    tiles[created_tile.coord].cacheable = bool(created_tile.cacheable)\n", "", 'C20.f', 'revert of fix D13'),
     M('M-C18c-code-from-request', 'mapproxy/service/wms.py', """            raise RequestError('unknown layer: ' + request.params.layer,
                                code='LayerNotDefined', request=request)""", """            raise RequestError('unknown layer: ' + request.params.layer,
                                code=request.params.layer, request=request)""", 'C18.c'),
